@@ -22,9 +22,9 @@ DsDims(vs) == IF vs = <<>> THEN <<>>
               ELSE LET rest == DsDims(SubSeq(vs, 1, Len(vs) - 1)) IN rest \o SelectSeq(vs[Len(vs)], LAMBDA d : d \notin Rng(rest))
 
 OpsOnDim == {"take_scalar_keepdims", "isel_scalar_keepdims", "take_scalar", "take_list", "take_slice", "take_position", "isel_scalar", "sel_list",
-             "mean", "sum", "std", "var", "median", "take_axis", "sort_axis", "reindex_axis", "reindex_fill", "reindex_left", "reindex_right", "interp_axis", "interp_axis_oob"}
+             "mean", "sum", "std", "var", "median", "take_axis", "take_axis_wrap", "take_axis_clip", "sort_axis", "reindex_axis", "reindex_fill", "reindex_left", "reindex_right", "interp_axis", "interp_axis_oob"}
 Drops == {"take_scalar", "isel_scalar", "mean", "sum", "std", "var", "median"}
-CarriesAttrs == {"take_scalar_keepdims", "isel_scalar_keepdims", "take_scalar", "take_list", "take_slice", "take_position", "isel_scalar", "sel_list", "take_axis", "sort_axis",
+CarriesAttrs == {"take_scalar_keepdims", "isel_scalar_keepdims", "take_scalar", "take_list", "take_slice", "take_position", "isel_scalar", "sel_list", "take_axis", "take_axis_wrap", "take_axis_clip", "sort_axis",
                  "reindex_axis", "reindex_fill", "reindex_left", "reindex_right", "interp_axis", "interp_axis_oob"}
 Whole == {"add_ds", "mul_scalar", "rsub_scalar", "neg", "stack_ds", "concatenate_ds", "construct_misaligned",
           "add_ds_misaligned", "sub_ds_misaligned", "stack_ds_align", "concatenate_ds_align", "concatenate_ds_align_pos",
